@@ -8,7 +8,7 @@
 #include "dict_gen.h"
 #include "iterators/IteratorDictStringPlain.h"
 
-extern "C" size_t libcsd_verif_memalloc;
+extern "C" int libcsd_verif_memalloc;
 
 namespace vh {
 
@@ -29,7 +29,7 @@ inline uchar *plain_buffer(const std::vector<std::string> &S, size_t &len, size_
 // builds a dictionary exactly as Build.cpp / the tests do
 inline StringDictionary *build_dict(const Params &p, const std::vector<std::string> &S) {
   size_t len = 0;
-  libcsd_verif_memalloc = p.memalloc;
+  libcsd_verif_memalloc = (int)p.memalloc;
   StringDictionary *d = nullptr;
   switch (p.kind) {
     case K_HASHHF: case K_HASHRPF: case K_HASHUFFDAC: case K_HASHRPDAC: {
